@@ -80,21 +80,33 @@ func (b *Uint32SizedArray) Unmarshal(r io.Reader) error {
 	return readSizedArray(r, &size, &b.Data)
 }
 
-func makeSized[T any](size any) ([]T, error) {
+// sizedLen returns the array length a size prefix of a supported type announces.
+func sizedLen(size any) (uint64, error) {
 	switch s := size.(type) {
 	case *byte:
-		if *s == 0 {
-			return nil, nil
-		}
-		return make([]T, *s), nil
+		return uint64(*s), nil
 	case *uint32:
-		if *s == 0 {
-			return nil, nil
-		}
-		return make([]T, *s), nil
+		return uint64(*s), nil
 	default:
-		return nil, fmt.Errorf("unsupported array size type %T", size)
+		return 0, fmt.Errorf("unsupported array size type %T", size)
 	}
+}
+
+// readExactly reads size bytes from r. The buffer grows with the bytes actually read, so a size
+// prefix from untrusted input cannot make the reader allocate more than the input holds, and a
+// short read is an error rather than a silently zero-filled array.
+func readExactly(r io.Reader, size uint64) ([]byte, error) {
+	if size == 0 {
+		return nil, nil
+	}
+	data, err := io.ReadAll(io.LimitReader(r, int64(size)))
+	if err != nil {
+		return nil, err
+	}
+	if uint64(len(data)) != size {
+		return nil, fmt.Errorf("read %d bytes of a %d byte array: %w", len(data), size, io.ErrUnexpectedEOF)
+	}
+	return data, nil
 }
 
 // Uint32SizedArrayT represents a uint32 sized array of a given type, with elements that are
@@ -118,12 +130,16 @@ func (d *Uint32SizedArrayT[T]) Unmarshal(r io.Reader) error {
 		d.Array = nil
 		return nil
 	}
-	d.Array = make([]T, size)
-	for i := range d.Array {
-		d.Array[i] = d.Array[i].Create().(T)
-		if err := d.Array[i].Unmarshal(r); err != nil {
+	// Elements are appended as they are read: the announced count is untrusted and must not size an
+	// allocation by itself.
+	d.Array = nil
+	var zero T
+	for i := uint32(0); i < size; i++ {
+		elem := zero.Create().(T)
+		if err := elem.Unmarshal(r); err != nil {
 			return fmt.Errorf("failed to unmarshal %T element %d: %v", []T{}, i, err)
 		}
+		d.Array = append(d.Array, elem)
 	}
 	return nil
 }
@@ -132,11 +148,12 @@ func readSizedArray(r io.Reader, size any, data *[]byte) error {
 	if err := binary.Read(r, binary.LittleEndian, size); err != nil {
 		return fmt.Errorf("failed to read array size as %T: %w", size, err)
 	}
-	result, err := makeSized[byte](size)
+	n, err := sizedLen(size)
 	if err != nil {
 		return err
 	}
-	if _, err := r.Read(result); err != nil {
+	result, err := readExactly(r, n)
+	if err != nil {
 		return err
 	}
 	*data = result
